@@ -38,6 +38,9 @@ def build(c):
         return Obj(c[1], bool(c[2]))
     if t == 'l':
         return [build(x) for x in c[1]]
+    if t == 'dup':      # the SAME object twice in one list (shared sub-structure, no cycle)
+        x = build(c[1])
+        return [x, build(c[2]), x]
     if t == 'd':
         return {f'k{i}': build(x) for i, x in enumerate(c[1])}
     if t == 'b':
